@@ -1096,7 +1096,9 @@ func (g *dbxGenState) refresh() {
 	_ = g.s.query("SELECT id, remote_id FROM messages_v2", 2, func(v []any) {
 		if n, err := strconv.Atoi(dbxMsgNum(dbxVal(v[0]))); err == nil {
 			m.msgs = append(m.msgs, n)
-			m.msgRids = append(m.msgRids, dbxVal(v[1]))
+			if rid := dbxVal(v[1]); !strings.HasPrefix(rid, "DELETED-") { // made-up remote ids (random UUIDs) differ from run to run
+				m.msgRids = append(m.msgRids, rid)
+			}
 		}
 	})
 	sort.Ints(m.msgs)
@@ -1594,6 +1596,14 @@ func dbxGen(r *Rng, n int, w io.Writer, st *Stats) {
 		case line <= len(bulk):
 			st.Inc("session.bulk")
 			g.bulkSession(bulk[line-1])
+		case line <= len(bulk)+2:
+			// every identifier-introducing method: change, look up, abort (or commit), look up again (d_db_probe.go)
+			st.Inc("session.probe-directed")
+			g.dbxpDirected(line == len(bulk)+2)
+		case line%4 == 1:
+			// change, look up, abort, look up again (d_db_probe.go)
+			st.Inc("session.probe")
+			g.dbxpSession(g.r.Range(2, 4))
 		default:
 			st.Inc("session.random")
 			g.randomSession(false)
